@@ -28,6 +28,7 @@ ASSUMPTIONS = [
     "row order / index are compared exactly for row-wise programs; programs containing merge, set_index, sort_values, drop_duplicates, unique, value_counts, concat are "
     "compared as multisets of rows (index ignored for merge/drop_duplicates/unique/describe) -- what pandas and dask promise for them",
     "a step on which pandas raises is dropped from the alphabet (inapplicable)",
+    "the frames do not depend on VERIF_SEED (the seed only rotates the shard order)",
 ]
 CONFIGS = [("range", (2, 4), "auto"), ("sorted_dup", (2, 1, 3), "auto"), ("unsorted", (0, 3, 0, 3), "auto")]
 # family -> (frames, levels, steps function name, number of configurations per program (rotating), shards per frame)
